@@ -328,3 +328,42 @@ def c07_compute(ctx, carrier, step_ft, wind, op):
         same = len(out) == len(base) and all(len(a) == len(b) and all(ctx.same_term(x, y) if (ctx.is_symbolic(x) or ctx.is_symbolic(y) or isinstance(x, float)) else x == y
                                                                       for x, y in zip(a, b)) for a, b in zip(out, base))
         ctx.check('result_independent_of_preferred_units', same, info={'assignment': name, 'op': op})
+
+
+@harness('C07.globals', 'C07', functions=['py_ballisticcalc._load_config', 'py_ballisticcalc._basic_config', 'py_ballisticcalc.unit.PreferredUnits.set'],
+         must_reach=['check:choosing_units_touches_nothing_but_the_slots'],
+         bounds='with a symbolic non-default global default step in force: loading each of the three shipped presets, PreferredUnits.set(...) and PreferredUnits.defaults() change '
+                'nothing but the 15 slots - every other module global of the package (global step, powder-sensitivity flag, solver constants) is the same term / value afterwards')
+def c07_globals(ctx):
+    p = pybc()
+    import sys
+    import py_ballisticcalc.trajectory_calc as tcpkg
+    g = ctx.real('global_step_ft', 1e-3, 50)
+    old = tcpkg._globalMaxCalcStepSizeFeet
+
+    def snap_globals():
+        out = {}
+        for name, m in sorted(sys.modules.items()):
+            if name.startswith('py_ballisticcalc') and m is not None:
+                for k, v in vars(m).items():
+                    if not k.startswith('__') and isinstance(v, (int, float, str, bool, type(None))) and not callable(v):
+                        out[f'{name}.{k}'] = v
+        return out
+    try:
+        tcpkg._globalMaxCalcStepSizeFeet = g
+        before = snap_globals()
+        for action in ('loadImperialUnits', 'loadMetricUnits', 'loadMixedUnits', 'set', 'defaults'):
+            with with_preferred():
+                if action == 'set':
+                    p.PreferredUnits.set(distance=p.Unit.Meter, velocity='mps')
+                elif action == 'defaults':
+                    p.PreferredUnits.defaults()
+                else:
+                    getattr(p, action)()
+                after = snap_globals()
+                changed = [k for k in before if not (ctx.same_term(before[k], after.get(k)) if isinstance(before[k], float) else before[k] == after.get(k))]
+                ctx.check('choosing_units_touches_nothing_but_the_slots', changed == [], info={'action': action, 'changed': changed[:4]})
+                c = p.Calculator()
+                ctx.check('calculator_created_after_choosing_units_has_the_global_step', ctx.same_term(c._calc._config.max_calc_step_size_feet, g), info={'action': action})
+    finally:
+        tcpkg._globalMaxCalcStepSizeFeet = old
